@@ -116,6 +116,9 @@ func c22Run(c *fx.Ctx) {
 						c.Violation("int:value-changed:"+valueClass(e), fmt.Sprintf("integer %s via %s encodes as % x which decodes as [%s] err=%v", v, e.K, enc, ev.Join(got), derr), c22Witness{Kind: "int", Events: doc, Got: enc})
 					}
 					c.Distinct("nontrivial", v.String())
+					if c.Index()%997 == 0 {
+						c.Sample(fmt.Sprintf("integer %s via %s -> % x (%d bytes = minimal)", v, e.K, enc, len(enc)-2))
+					}
 				}
 			}
 		}
